@@ -181,9 +181,10 @@ def gen_pd(rng: Rng, now: int, profile: str) -> dict:
     if r < 0.5:
         pass
     elif r < 0.85:
-        pd["next"] = now + rng.choice([-3600 * S, -1, 0, 1, 400, 999, 1000, 1001, 1900, 400_000, S, S + 900_000, 2 * S + 500_000, 5 * S, 3600 * S])
+        pd["next"] = now + rng.choice([-3600 * S, -1, 0, 1, 400, 999, 1000, 1001, 1900, 400_000, S, S + 900_000, 2 * S + 500_000, 5 * S, 3600 * S,
+                                        86400 * S - 5, 86400 * S + 700_000, 3 * 86400 * S + 2 * S])
     else:
-        pd["delay_until"] = now + rng.choice([-S, 0, 1500, 500_000, 2 * S + 250_000, 600 * S])
+        pd["delay_until"] = now + rng.choice([-S, 0, 1500, 500_000, 2 * S + 250_000, 600 * S, 2 * 86400 * S + 1500])
     if rng.random() < (0.5 if profile == "ttl" else 0.15):
         pd["ttl"] = rng.choice([S, 2 * S, 5 * S, 3600 * S])
     return pd
@@ -222,7 +223,7 @@ async def random_session(rng: Rng, n_ops: int, profile: str, box: list) -> Sessi
             else:
                 await s.terminal(kind, mid)
         else:
-            await s.advance(rng.choice([1, 500, 1000, 100_000, 400_000, S, S + 300_000, 3 * S, 10 * S, 700 * S, 3600 * S]))
+            await s.advance(rng.choice([1, 500, 1000, 100_000, 400_000, S, S + 300_000, 3 * S, 10 * S, 700 * S, 3600 * S, 86400 * S]))
     if not s.consumers:
         for c, cat in enumerate(cats):
             await s.consumer(c, cat)
